@@ -93,19 +93,25 @@ OWNER = ['']  # '<module>:<class>' of the function being sliced
 KEEP_CALL = [None]  # predicate on ast.Call: statements containing such a call are kept (sites of interest)
 
 
-def _slice_body(body: list[ast.stmt], need: set[str], self_calls_define: set[str]) -> tuple[list[ast.stmt], set[str]]:
+def _slice_body(body: list[ast.stmt], need: set[str], self_calls_define: set[str], after: bool = False) -> tuple[list[ast.stmt], set[str]]:
+    """`after`: a site of interest follows this block (in an enclosing block, or in a later iteration of an enclosing loop)."""
     out: list[ast.stmt] = []
     for st in reversed(body):
-        keep, need = _slice_stmt(st, need, self_calls_define)
+        keep, need = _slice_stmt(st, need, self_calls_define, after)
         if keep is not None:
             out.append(keep)
+        if _site(st):
+            after = True
     out.reverse()
     return out, need
 
 
-def _slice_stmt(st: ast.stmt, need: set[str], scd: set[str]) -> tuple[ast.stmt | None, set[str]]:
+def _slice_stmt(st: ast.stmt, need: set[str], scd: set[str], after: bool = False) -> tuple[ast.stmt | None, set[str]]:
     if isinstance(st, (ast.Return, ast.Raise)):
         if not KEEP_EXITS[0]:
+            # an exit that holds a site, or that comes before one (`if c: return` guards everything after it), stays
+            if _site(st) or after:
+                return st, need | uses(st)
             return None, need
         return st, need | uses(st)
     if isinstance(st, (ast.Break, ast.Continue)):
@@ -142,8 +148,8 @@ def _slice_stmt(st: ast.stmt, need: set[str], scd: set[str]) -> tuple[ast.stmt |
             return st, need | uses(st)
         return None, need
     if isinstance(st, ast.If):
-        sb, nb = _slice_body(st.body, set(need), scd)
-        so, no = _slice_body(st.orelse, set(need), scd)
+        sb, nb = _slice_body(st.body, set(need), scd, after)
+        so, no = _slice_body(st.orelse, set(need), scd, after)
         if sb or so:
             new = copy.copy(st)
             new.body = sb or [ast.copy_location(ast.Pass(), st)]
@@ -154,7 +160,7 @@ def _slice_stmt(st: ast.stmt, need: set[str], scd: set[str]) -> tuple[ast.stmt |
         strong, weak = stores(st)
         if isinstance(st, (ast.For, ast.While)) and not ((strong | weak) & need) and not (_has_exit(st) and KEEP_EXITS[0]) and _site(st):
             # a loop kept only for the sites inside it: slice its body too
-            body, nb = _slice_body(st.body, set(need), scd)
+            body, nb = _slice_body(st.body, set(need), scd, True)
             new = copy.copy(st)
             new.body = body or [ast.copy_location(ast.Pass(), st)]
             return new, need | nb | uses(st.iter if isinstance(st, ast.For) else st.test)
